@@ -105,9 +105,12 @@ def _run(chk):
                 continue
             c['frames'] = frames
         runs = {}
+        capb = c02.numba_cap_binding(dict(c, strategy='numba'))
         for s in ['recursive', 'nonrecursive', 'numba', 'hybrid', 'auto']:
+            if capb and s in ('numba', 'hybrid'):
+                chk.tally('numba candidate cap binding: numba/hybrid not run'); continue
             runs['link_iter/' + s] = linkgen.run_link_iter(frames, sr, memory=mem, link_strategy=s)
-        s = rng.choice(['recursive', 'nonrecursive', 'numba'])
+        s = rng.choice(['recursive', 'nonrecursive'] + ([] if capb else ['numba']))
         runs['link/' + s] = run_table(frames, sr, mem, s, 'link')
         runs['link_df_iter/' + s] = run_table(frames, sr, mem, s, 'link_df_iter')
         runs['link(permuted rows)/' + s] = run_table(frames, sr, mem, s, 'link', perm_rng=rng)
